@@ -76,11 +76,11 @@ def run(chk, replay=None):
                 '<units name="%s">%s</units>' % (nm, ''.join('<unit units="%s"/>' % r for r in refs)) for nm, refs in us) + '</model>'
             rc, o, e = run_one(hx, wd, base, text.encode(), 'walk', 60)
             lines.append('(walk %s)' % ' '.join('(u %s %s)' % (nm, ' '.join(refs)) for nm, refs in us))
-            impl.append(o.strip() if rc == 0 else 'crash rc=%s' % rc)
+            impl.append(o.split('\n')[0].strip() if rc == 0 and 'queries ' in o else 'crash rc=%s' % rc)
         model = run_lines(drv, ['walk'], lines)[1] if os.path.exists(drv) else [''] * len(lines)
         for l, i, m in zip(lines, impl, model):
             if i != m:
-                (oracle if i.startswith('crash') else corr).append(('referencedUnits on %s: implementation %r, model %r' % (l, i, m), {'wire': l}))
+                (oracle if i.startswith('crash') else corr).append(('the recursions over unit references (referencedUnits; isDefined, isResolved, requiresImports, hasImports, validator, printer from every units) on %s: implementation %r, model %r' % (l, i, m), {'wire': l}))
         stats['walk_graphs'] = len(lines)
         # 2. the pipeline on hostile inputs
         inputs = []
@@ -113,7 +113,7 @@ def run(chk, replay=None):
         shutil.rmtree(wd, ignore_errors=True)
     hist = dict(stats); hist['mutations'] = dict(kinds.most_common(40)) if not replay else {}
     chk.cov.update(evaluations=stats['runs'] + stats['walk_graphs'], distinct_nontrivial=stats['inputs'],
-                   rule='random units graphs of 1-6 units with self-references, cycles and dangling references through the real referencedUnits; hostile inputs (see assumptions) through every public stage: parse, validate, print, isDefined / isResolved / requiresImports / '
+                   rule='random units graphs of 1-6 units with self-references, cycles (also entered from outside) and dangling references through the real referencedUnits, and from every units of the graph through isDefined / isResolved / requiresImports / isBaseUnit / compatible / scalingFactor, hasImports, hasUnresolvedImports, validateModel, printModel; hostile inputs (see assumptions) through every public stage: parse, validate, print, isDefined / isResolved / requiresImports / '
                         'hasImports / compatible / scalingFactor queries, clone + equals, linkUnits / fixVariableInterfaces / clean, annotate, resolveImports, flattenModel (+ validate and print of the flat model), analyse, generate C and Python - strict and permissive'
                         + ('; library and harness built with -fsanitize=address,undefined' if san else ''),
                    samples=[lines[0] if lines else '', impl[0] if impl else ''], traces_validated_against_impl=stats['walk_graphs'] - len(corr), exhaustive=False, outcome_histogram=hist)
